@@ -73,8 +73,9 @@ class Call:
 
 
 class WT:
-    def __init__(self, prog, depth=3, inline_public=False, keep=()):
+    def __init__(self, prog, depth=3, inline_public=False, keep=(), backend=None):
         self.prog = prog
+        self.backend = backend      # 'numpy' / 'dask': `mapper(agg)(..)` on an ArrayTypeFunctionMapping calls that backend's function
         self.maxdepth = depth
         self.keep = set(keep)       # functions recorded as calls instead of being evaluated in place
         self.calls = []
@@ -277,6 +278,13 @@ class WT:
                 target = self.prog.resolve_callable(f, f.module, fn)
             except Exception:      # noqa - resolution is best effort here
                 target = None
+        if self.backend and f is not None and isinstance(fn, ast.Call):
+            # the dispatch idiom: ArrayTypeFunctionMapping(numpy_func=.., dask_func=..)(agg)(args): the chosen backend's function
+            mv = self.ev(f, fn.func, env, depth) if not isinstance(fn.func, ast.Name) else env.get(fn.func.id)
+            if isinstance(mv, tuple) and mv[0] == 'call' and mv[1] == ('global', 'ArrayTypeFunctionMapping'):
+                bt = dict(mv[3]).get(self.backend + '_func')
+                if isinstance(bt, tuple) and bt[0] == 'global' and isinstance(f.module.funcs.get(bt[1]), Func):
+                    target = f.module.funcs[bt[1]]
         while isinstance(target, Partial):
             for k_, v_ in target.keywords.items():
                 kwargs.setdefault(k_, self.ev(target.scope if hasattr(target, 'scope') else f, v_, env, depth) if isinstance(v_, ast.AST) else v_)
